@@ -99,6 +99,13 @@ func c03Entry(item string, i int, nameClass string) model.Entry {
 		return model.Entry{Src: "links/*", Dst: base + name}
 	case "sizes-tree":
 		return model.Entry{Src: "sizes", Dst: base + name, Type: "tree"}
+	case "symlink-odd":
+		// a link target with a blank, '#', a backslash and non-ASCII bytes (what .MTREE states is what the member says)
+		return model.Entry{Src: "/opt/My App/bin/tool #1\\x caf\u00e9", Dst: base + name, Type: "symlink"}
+	case "config-noreplace":
+		return model.Entry{Src: "share/f5000.bin", Dst: base + name, Type: "config|noreplace"}
+	case "config-missingok":
+		return model.Entry{Src: "share/f1024.bin", Dst: base + name, Type: "config|missingok"}
 	case "odd-tree":
 		return model.Entry{Src: "oddnames", Dst: base + name, Type: "tree"}
 	case "odd-glob":
@@ -252,6 +259,14 @@ func init() {
 						if !yield(C03Case{Shape: sh, Setting: s, SDE: sde}) {
 							return
 						}
+					}
+				}
+			}
+			// every configuration-file flavour with content, a link whose target needs escaping
+			for _, s := range []Setting{sets[0], {Name: "mtime=B", MTime: "B"}} {
+				for _, sh := range [][]string{{"config-noreplace"}, {"config-missingok"}, {"config", "config-noreplace", "config-missingok", "f1"}, {"symlink-odd"}, {"symlink-odd", "symlink", "f1"}} {
+					if !yield(C03Case{Shape: sh, Setting: s}) {
+						return
 					}
 				}
 			}
